@@ -1,4 +1,8 @@
 import LinfaSpec.Proofs.NN
+import Mathlib.Algebra.Order.Field.Rat
+import Mathlib.Algebra.Order.Group.Abs
+import Mathlib.Algebra.Order.Ring.Abs
+import Mathlib.Tactic.Ring
 
 /-!
 # C07 — nearest-neighbour indices return the true neighbours and are interchangeable
@@ -266,6 +270,56 @@ theorem indices_agree_range {m : Metric P α} (h : Lawful m) (mean : List P → 
   exact ⟨fun hc => hnot (hpb.subset hc), fun hc => hnot (hkd.subset hc), hnot⟩
 
 end
+
+/-! ### non-vacuity: the hypotheses are satisfiable on concrete, non-trivial values -/
+section examples
+
+/-- points on the rational line, distance `|a - b|`, reduced distance `2|a - b|` (a reduced
+distance different from the distance, like L2's square) -/
+def mQ : Metric ℚ ℚ := ⟨fun a b => |a - b|, fun a b => 2 * |a - b|, fun d => 2 * d, fun d => d / 2⟩
+
+theorem mQ_lawful : Lawful mQ where
+  dist_nonneg a b := abs_nonneg _
+  triangle a b c := abs_sub_le a b c
+  rdist_eq a b := rfl
+  toR_strictMono a b _ hab := by show 2 * a < 2 * b; linarith
+  ofR_toR a _ := by show 2 * a / 2 = a; ring
+
+/-- a split in the shape of `partition`: first point left, the rest right, centre = first point -/
+def splitQ : List (Pt ℚ) → Option (List (Pt ℚ) × ℚ × List (Pt ℚ))
+  | [] => none
+  | p :: ps => some ([p], p.1, ps)
+
+theorem splitQ_perm : SplitPerm splitQ := by
+  intro pts a c b h
+  cases pts with
+  | nil => simp [splitQ] at h
+  | cons p ps =>
+    simp only [splitQ, Option.some.injEq, Prod.mk.injEq] at h
+    obtain ⟨rfl, _, rfl⟩ := h
+    simp
+
+def meanQ (l : List ℚ) : ℚ := l.sum / l.length
+
+-- `Lawful` and `SplitPerm` hold of concrete values, so every theorem above applies, e.g. to a
+-- batch with duplicates and ties, leaf size 1, k beyond a tie, k = 0, k > n, a point on the radius:
+example : ∃ out, ballKnnQ mQ (ballIndex mQ meanQ splitQ 1 1 [0, 3, 1, 3, 7]) 1 2 3 = .ok out ∧
+    KNearest mQ 2 (enumerate [0, 3, 1, 3, 7]) out 3 :=
+  search_knn_correct mQ_lawful meanQ splitQ splitQ_perm 1 1 _ 2 3
+example : ∃ out, ballKnnQ mQ (ballIndex mQ meanQ splitQ 1 1 [0, 3, 1, 3, 7]) 1 2 0 = .ok out ∧
+    KNearest mQ 2 (enumerate [0, 3, 1, 3, 7]) out 0 :=
+  search_knn_correct mQ_lawful meanQ splitQ splitQ_perm 1 1 _ 2 0
+example : ∃ out, ballRangeQ mQ (ballIndex mQ meanQ splitQ 2 1 [0, 3, 1, 3, 7]) 1 2 1 = .ok out ∧
+    out.Perm (linearRange mQ 2 1 (enumerate [0, 3, 1, 3, 7])) :=
+  search_range_correct mQ_lawful meanQ splitQ splitQ_perm 2 1 _ 2 1
+example : BallInv mQ (build mQ meanQ splitQ 1 5 (enumerate [0, 3, 1, 3, 7])) :=
+  ball_inv mQ_lawful meanQ splitQ splitQ_perm 1 5 _
+example : KNearest mQ 2 (enumerate [0, 3, 1, 3, 7]) (linearKnn mQ 2 9 (enumerate [0, 3, 1, 3, 7])) 9 :=
+  linear_knn_correct mQ 2 9 _
+example : buildCheck 3 16 = .ok () ∧ buildCheck 0 16 = .error .zeroDimension ∧
+    buildCheck 3 0 = .error .emptyLeaf ∧ buildCheck 0 0 = .error .emptyLeaf := by decide
+
+end examples
 
 /-! ### errors -/
 
